@@ -392,3 +392,404 @@ Proof.
   exact (single_nest_rows_canon (fun t => tproject (fun x => negb (name_eqb x n)) t) n (a0 :: a)
            (fun t Ht => filter_tup_canon _ t Ht) Ha).
 Qed.
+
+(* ---------- values of the evaluator ---------- *)
+
+Inductive VWF : value -> Prop :=
+| VWF_D v : Canon v -> VWF (D v)
+| VWF_C rho p body : Forall (fun b => VWF (snd b)) rho -> VWF (Clos rho p body).
+
+Definition EWF (rho : env) : Prop := Forall (fun b => VWF (snd b)) rho.
+
+(* "every Ok answer satisfies P" *)
+Definition rP {A} (P : A -> Prop) (r : res A) : Prop := forall a, r = Ok a -> P a.
+
+Lemma rP_ok {A} (P : A -> Prop) a : P a -> rP P (Ok a).
+Proof. intros H b [= <-]. exact H. Qed.
+Lemma rP_err {A} (P : A -> Prop) : rP P Err.
+Proof. intros a E; discriminate. Qed.
+Lemma rP_unspec {A} (P : A -> Prop) : rP P Unspec.
+Proof. intros a E; discriminate. Qed.
+Lemma rP_oof {A} (P : A -> Prop) : rP P OutOfFuel.
+Proof. intros a E; discriminate. Qed.
+
+Lemma rP_bind {A B} (Q : A -> Prop) (P : B -> Prop) r f :
+  rP Q r -> (forall a, Q a -> rP P (f a)) -> rP P (rbind r f).
+Proof.
+  intros Hr Hf b. destruct r as [a| | |]; simpl; try discriminate. apply Hf, Hr. reflexivity.
+Qed.
+
+Lemma rP_mapM {A B} (Q : B -> Prop) (f : A -> res B) l :
+  (forall x, In x l -> rP Q (f x)) -> rP (Forall Q) (mapM f l).
+Proof.
+  intros Hf r Hr. eapply mapM_forall; [exact Hr|]. intros x y Hx E. apply (Hf x Hx y E).
+Qed.
+
+Lemma rP_true {A} (r : res A) : rP (fun _ => True) r.
+Proof. intros a _. exact I. Qed.
+Lemma rP_elim {A} (P : A -> Prop) r a : rP P r -> r = Ok a -> P a.
+Proof. intros H E. apply H, E. Qed.
+
+Lemma rP_weaken {A} (P Q : A -> Prop) r : (forall a, P a -> Q a) -> rP P r -> rP Q r.
+Proof. intros H Hr a E. apply H, Hr, E. Qed.
+
+Lemma as_data_wf v : VWF v -> rP Canon (as_data v).
+Proof. intros H d. destruct v; simpl; [intros [= <-]; inversion H; assumption | discriminate]. Qed.
+
+Lemma as_set_wf v : Canon v -> rP (fun l => Canon (VSet l)) (as_set v).
+Proof. intros H l. destruct v; simpl; try discriminate. intros [= <-]. exact H. Qed.
+
+Lemma env_get_wf x rho v : EWF rho -> env_get x rho = Some v -> VWF v.
+Proof.
+  induction rho as [|[y w] rho IH]; simpl; [discriminate|]. intros H. inversion H as [|? ? Hw Hr]; subst.
+  destruct (name_eqb x y); [intros [= <-]; exact Hw | apply IH, Hr].
+Qed.
+
+Lemma EWF_app a b : EWF a -> EWF b -> EWF (a ++ b).
+Proof. intros; apply Forall_app; split; assumption. Qed.
+
+Lemma env_matched_update_wf t : forall s r, EWF s -> EWF t -> env_matched_update s t = Some r -> EWF r.
+Proof.
+  induction t as [|[x v] t IH]; intros s r Hs Ht; simpl; [intros [= <-]; exact Hs|].
+  inversion Ht as [|? ? Hv Ht']; subst. simpl in Hv.
+  destruct (env_get x s) as [[a|? ? ?]|]; [destruct v as [b|? ? ?]; [destruct (veqb a b); [apply IH; assumption | discriminate] | discriminate] | discriminate |].
+  apply IH; [constructor; assumption | assumption].
+Qed.
+
+Lemma bin_data_wf op a b : Canon a -> Canon b -> rP Canon (bin_data op a b).
+Proof. intros Ha Hb r E. exact (bin_data_canon op a b r Ha Hb E). Qed.
+Lemma un_data_wf op a : Canon a -> rP Canon (un_data op a).
+Proof. intros Ha r E. exact (un_data_canon op a r Ha E). Qed.
+Lemma join_data_wf op a b : Canon (VSet a) -> Canon (VSet b) -> rP Canon (join_data op a b).
+Proof. intros Ha Hb r E. exact (join_data_canon op a b r Ha Hb E). Qed.
+Lemma nest_data_wf names n a : Canon (VSet a) -> rP Canon (nest_data names n a).
+Proof. intros Ha r E. exact (nest_data_canon names n a r Ha E). Qed.
+Lemma single_nest_data_wf n a : Canon (VSet a) -> rP Canon (single_nest_data n a).
+Proof. intros Ha r E. exact (single_nest_data_canon n a r Ha E). Qed.
+
+Lemma arr_items_canon (vs : list (option val)) :
+  Forall (fun o => match o with Some v => Canon v | None => True end) vs ->
+  forall idx, Forall Canon (fold_right (fun (p : Z * option val) acc => match snd p with Some v => vitem (fst p) v :: acc | None => acc end)
+                                       [] (combine idx vs)).
+Proof.
+  induction 1 as [|o vs Ho Hvs IH]; intros idx; destruct idx as [|i idx]; simpl; try constructor.
+  destruct o as [v|]; [constructor; [apply vitem_canon, Ho | apply IH] | apply IH].
+Qed.
+
+Lemma dense_array_canon d xs : Canon d -> dense_array d = Some xs -> Forall Canon xs.
+Proof.
+  intros Hd. unfold dense_array. destruct d as [| |l]; try discriminate.
+  destruct l as [|m l]; [intros [= <-]; constructor|].
+  destruct (seq_members n_item (m :: l)) as [ps|] eqn:Es; [|discriminate].
+  destruct (forallb _ _); [|discriminate]. intros [= <-].
+  pose proof (seq_members_canon _ _ _ Es (set_members_canon _ Hd)) as H.
+  apply Forall_forall. intros x Hx. apply in_map_iff in Hx as (q & <- & Hq). rewrite Forall_forall in H. apply (H q Hq).
+Qed.
+
+Lemma items_set_canon (mid : list val) idx :
+  Forall Canon mid -> Canon (mkset (map (fun p : Z * val => vitem (fst p) (snd p)) (combine idx mid))).
+Proof.
+  intros H. apply mkset_canon, Forall_forall. intros z Hz. apply in_map_iff in Hz as ([i x] & <- & Hq).
+  apply in_combine_r in Hq. rewrite Forall_forall in H. apply vitem_canon, H, Hq.
+Qed.
+
+Lemma Forall_firstn {A} (P : A -> Prop) n l : Forall P l -> Forall P (firstn n l).
+Proof.
+  intros H. revert n. induction H as [|x l Hx Hl IH]; intros n; destruct n; simpl; constructor; auto.
+Qed.
+Lemma Forall_skipn {A} (P : A -> Prop) n l : Forall P l -> Forall P (skipn n l).
+Proof.
+  intros H. revert n. induction H as [|x l Hx Hl IH]; intros n; destruct n; simpl; try constructor; auto.
+Qed.
+Lemma Forall_filter {A} (P : A -> Prop) f l : Forall P l -> Forall P (filter f l).
+Proof. intros H. apply Forall_forall. intros x Hx. apply filter_In in Hx as [Hx _]. rewrite Forall_forall in H. apply H, Hx. Qed.
+
+Opaque rP.
+Section Step.
+Variables (ev : env -> expr -> res value) (bd : env -> pat -> value -> res env).
+Hypothesis Hev : forall rho e, EWF rho -> rP VWF (ev rho e).
+Hypothesis Hbd : forall rho p v, EWF rho -> VWF v -> rP EWF (bd rho p v).
+
+Lemma evd_wf rho e : EWF rho -> rP Canon (do v <- ev rho e; as_data v).
+Proof. intros H. eapply rP_bind; [apply Hev, H|]. intros v Hv. apply as_data_wf, Hv. Qed.
+
+Lemma apply_wf fv a :
+  VWF fv -> VWF a ->
+  rP VWF (match fv with
+          | Clos cenv p body => do sc <- bd cenv p a; ev (sc ++ cenv) body
+          | D (VSet c) =>
+              do k <- as_data a;
+              match call_data c k with
+              | CROne v => Ok (D v)
+              | CRNotKeyed => Unspec
+              | _ => Err
+              end
+          | D _ => Err
+          end).
+Proof.
+  intros Hf Ha. destruct fv as [d|cenv p body].
+  - destruct d as [| |c]; try apply rP_err.
+    assert (Hc : Canon (VSet c)) by (inversion Hf; assumption).
+    eapply rP_bind; [apply as_data_wf, Ha|]. intros k Hk.
+    destruct (call_data c k) eqn:E; try apply rP_err; try apply rP_unspec.
+    apply rP_ok. constructor. eapply call_data_canon; [exact Hc | exact E].
+  - assert (Hc : EWF cenv) by (inversion Hf; assumption).
+    eapply rP_bind; [apply Hbd; assumption|]. intros sc Hsc. apply Hev, EWF_app; assumption.
+Qed.
+
+Ltac wf :=
+  repeat first
+    [ apply rP_ok | apply rP_err | apply rP_unspec | apply rP_oof
+    | assumption
+    | apply evd_wf; assumption
+    | apply Hev; assumption
+    | apply apply_wf; [assumption | try assumption; constructor; assumption]
+    | apply as_data_wf; assumption
+    | eapply rP_bind; [ first [ apply evd_wf; assumption | apply Hev; assumption | apply as_data_wf; assumption
+                              | apply as_set_wf; assumption | apply bin_data_wf; assumption | apply un_data_wf; assumption
+                              | apply join_data_wf; assumption | apply nest_data_wf; assumption | apply single_nest_data_wf; assumption
+                              | apply apply_wf; [assumption | try assumption; constructor; assumption] ]
+                      | intros ? ?; cbv beta in * ]
+    | match goal with
+      | |- rP _ (match ?x with _ => _ end) => destruct x eqn:?
+      | |- rP _ (if ?x then _ else _) => destruct x eqn:?
+      end ].
+
+Ltac inv_vwf :=
+  repeat match goal with
+         | H : VWF (D _) |- _ => inversion H; clear H; subst
+         | H : VWF (Clos _ _ _) |- _ => inversion H; clear H; subst
+         end.
+
+Ltac leaf :=
+  inv_vwf;
+  first
+    [ assumption
+    | apply VWF_D; first [ assumption | apply norm_canon | reflexivity | apply Canon_bool | apply Canon_int ]
+    | apply VWF_C; assumption
+    | eapply env_get_wf; eassumption
+    | match goal with
+      | H : call_data ?c ?k = CROne ?v |- VWF (D ?v) => apply VWF_D; eapply call_data_canon; [|exact H]; assumption
+      | H : tget ?n ?l = Some ?v |- VWF (D ?v) => apply VWF_D; eapply tget_canon; [|exact H]; assumption
+      end ].
+
+Lemma clos_wf cenv p body a : EWF cenv -> VWF a -> rP VWF (do sc <- bd cenv p a; ev (sc ++ cenv) body).
+Proof.
+  intros Hc Ha. eapply rP_bind; [apply Hbd; assumption|]. intros sc Hsc. apply Hev, EWF_app; assumption.
+Qed.
+
+Lemma evalF_wf rho e : EWF rho -> rP VWF (evalF ev bd rho e).
+Proof.
+  intros Hrho. destruct e; unfold evalF; cbv zeta beta; wf; try solve [leaf].
+  - (* set literal *)
+    eapply rP_bind; [apply rP_mapM with (Q := Canon); intros x _; apply evd_wf, Hrho|].
+    intros vs Hvs. apply rP_ok, VWF_D, mkset_canon, Hvs.
+  - (* tuple literal *)
+    eapply rP_bind; [apply rP_mapM with (Q := fun p : name * val => Canon (snd p)); intros x _|].
+    + eapply rP_bind; [apply evd_wf, Hrho|]. intros v Hv. apply rP_ok. exact Hv.
+    + intros vs Hvs. apply rP_ok, VWF_D, build_tuple_canon, Hvs.
+  - (* array literal *)
+    eapply rP_bind; [apply rP_mapM with (Q := fun o : option val => match o with Some v => Canon v | None => True end); intros x _|].
+    + destruct x as [x|]; [|apply rP_ok; exact I]. eapply rP_bind; [apply evd_wf, Hrho|]. intros v Hv. apply rP_ok. exact Hv.
+    + intros vs Hvs. apply rP_ok, VWF_D, mkset_canon, arr_items_canon, Hvs.
+  - (* dict literal *)
+    eapply rP_bind; [apply rP_mapM with (Q := fun p : val * val => Canon (fst p) /\ Canon (snd p)); intros x _|].
+    + eapply rP_bind; [apply evd_wf, Hrho|]. intros k Hk. eapply rP_bind; [apply evd_wf, Hrho|]. intros v Hv.
+      apply rP_ok. split; assumption.
+    + intros es Hes. match goal with |- rP _ (if ?c then _ else _) => destruct c end; [apply rP_err|].
+      apply rP_ok, VWF_D, mkset_canon, Forall_forall. intros m Hm. apply in_map_iff in Hm as (q & <- & Hq).
+      rewrite Forall_forall in Hes. destruct (Hes q Hq). apply ventry_canon; assumption.
+  - (* comparison *)
+    eapply rP_bind; [apply rP_true|]. intros r _. apply rP_ok, VWF_D, Canon_bool.
+  - (* where *)
+    eapply rP_bind; [apply rP_true|]. intros keep _. apply rP_ok, VWF_D, mask_canon. assumption.
+  - (* => *)
+    match goal with H : VWF (Clos ?cenv _ _) |- _ => assert (Hc : EWF cenv) by (inversion H; assumption) end.
+    eapply rP_bind; [apply rP_mapM with (Q := Canon); intros m Hm|].
+    + eapply rP_bind; [apply clos_wf; [exact Hc | apply VWF_D; eapply Canon_members; eassumption]|].
+      intros r Hr. apply as_data_wf, Hr.
+    + intros ys Hys. apply rP_ok, VWF_D, mkset_canon, Hys.
+  - (* >> *)
+    match goal with H : Canon (VSet (?v :: ?l)) |- _ => set (L := v :: l) in * end.
+    eapply rP_bind; [apply rP_mapM with (Q := fun t : val * name * val => Canon (fst (fst t)) /\ Canon (snd t)); intros m Hm|].
+    + assert (Cm : Canon m) by (eapply Canon_members; eassumption).
+      destruct (as_pair m) as [[[k n] v0]|] eqn:Ep.
+      * destruct (as_pair_canon m k n v0 Cm Ep) as [Ck Cv].
+        eapply rP_bind with (Q := Canon).
+        -- destruct withAt.
+           ++ eapply rP_bind; [apply apply_wf; [assumption | apply VWF_D, Ck]|]. intros g Hg.
+              eapply rP_bind; [apply apply_wf; [exact Hg | apply VWF_D, Cv]|]. intros r Hr. apply as_data_wf, Hr.
+           ++ eapply rP_bind; [apply apply_wf; [assumption | apply VWF_D, Cv]|]. intros r Hr. apply as_data_wf, Hr.
+        -- intros v' Hv'. apply rP_ok. split; assumption.
+      * destruct m as [|attrs|]; try apply rP_err. destruct (tget n_at attrs); [apply rP_unspec | apply rP_err].
+    + intros ms Hms.
+      assert (G : Canon (mkset (map (fun t : val * name * val => build_tuple [(n_at, fst (fst t)); (snd (fst t), snd t)]) ms))).
+      { apply mkset_canon, Forall_forall. intros z Hz. apply in_map_iff in Hz as (t & <- & Ht).
+        rewrite Forall_forall in Hms. destruct (Hms t Ht). apply build_tuple_canon. repeat constructor; assumption. }
+      destruct (as_seq L) as [[n ?]|]; [|apply rP_ok, VWF_D, G].
+      repeat match goal with |- rP _ (if ?c then _ else _) => destruct c end; try apply rP_err. apply rP_ok, VWF_D, G.
+  - (* call of a closure *)
+    match goal with H : VWF (Clos ?cenv _ _) |- _ => assert (Hc : EWF cenv) by (inversion H; assumption) end.
+    apply clos_wf; assumption.
+  - (* let *)
+    apply clos_wf; assumption.
+  - (* cond *)
+    induction arms as [|[c v] arms IH]; [destruct dflt; [apply Hev, Hrho | apply rP_ok, VWF_D; reflexivity]|].
+    eapply rP_bind; [apply evd_wf, Hrho|]. intros x Hx. destruct (is_true x); [apply Hev, Hrho | exact IH].
+  - (* cond with patterns *)
+    induction arms as [|[p body] arms IH]; [apply rP_ok, VWF_D; reflexivity|].
+    destruct (bd rho p a) as [sc| | |] eqn:Eb; [|exact IH | apply rP_unspec | apply rP_oof].
+    apply Hev, EWF_app; [|exact Hrho]. eapply rP_elim; [apply Hbd; [exact Hrho | eassumption] | exact Eb].
+  - (* rank *)
+    match goal with H : VWF (Clos ?cenv _ _) |- _ => assert (Hc : EWF cenv) by (inversion H; assumption) end.
+    match goal with H : Canon (VSet (?v :: ?l)) |- _ => set (L := v :: l) in * end.
+    eapply rP_bind; [apply rP_mapM with (Q := fun tk : list (name * val) * list (name * val) => Canon (VTup (fst tk))); intros m Hm|].
+    + assert (Cm : Canon m) by (eapply Canon_members; eassumption).
+      eapply rP_bind; [apply clos_wf; [exact Hc | apply VWF_D, Cm]|]. intros k Hk.
+      eapply rP_bind; [apply as_data_wf, Hk|]. intros kd Hkd.
+      destruct m as [|t|]; try apply rP_unspec. destruct kd as [|ks|]; try apply rP_unspec. apply rP_ok. exact Cm.
+    + intros keyed Hkeyed.
+      eapply rP_bind; [apply rP_mapM with (Q := Canon); intros tk Htk|].
+      * eapply rP_bind; [apply rP_mapM with (Q := fun kv : name * val => Canon (snd kv)); intros kv _|].
+        -- destruct (snd kv); try apply rP_unspec. eapply rP_bind; [apply rP_true|]. intros sm _. apply rP_ok, Canon_int.
+        -- intros ranks Hranks. apply rP_ok, build_tuple_canon, Forall_app_snd; [|exact Hranks].
+           rewrite Forall_forall in Hkeyed. apply tup_attrs_canon, (Hkeyed tk Htk).
+      * intros rows Hrows. apply rP_ok, VWF_D, mkset_canon, Hrows.
+Qed.
+
+Lemma bind_item_wf rho acc it x :
+  EWF rho -> EWF acc -> VWF x ->
+  rP EWF (do sc <- bd rho it x; match env_matched_update acc sc with Some r => Ok r | None => Err end).
+Proof.
+  intros Hrho Hacc Hx. eapply rP_bind; [apply Hbd; assumption|]. intros sc Hsc.
+  destruct (env_matched_update acc sc) as [r|] eqn:E; [|apply rP_err].
+  apply rP_ok. eapply env_matched_update_wf; [exact Hacc | exact Hsc | exact E].
+Qed.
+
+Lemma bindF_wf rho p v : EWF rho -> VWF v -> rP EWF (bindF ev bd rho p v).
+Proof.
+  intros Hrho Hv. destruct p; unfold bindF; cbv zeta beta.
+  - apply rP_ok. constructor; [exact Hv | constructor].
+  - apply rP_ok. constructor.
+  - eapply rP_bind; [apply Hev, Hrho|]. intros w Hw. eapply rP_bind; [apply as_data_wf, Hw|]. intros a Ha.
+    eapply rP_bind; [apply as_data_wf, Hv|]. intros b Hb. destruct (veqb a b); [apply rP_ok; constructor | apply rP_err].
+  - (* array pattern *)
+    eapply rP_bind; [apply as_data_wf, Hv|]. intros d Hd.
+    destruct (dense_array d) as [xs|] eqn:Ed; [|apply rP_err].
+    pose proof (dense_array_canon d xs Hd Ed) as Hxs.
+    match goal with |- rP _ (if ?c then _ else _) => destruct c end; [apply rP_err|].
+    match goal with |- rP _ (?F ?a ?b ?c) =>
+      assert (HH : forall b' c', Forall Canon b' -> EWF c' -> rP EWF (F a b' c')); [| apply HH; [exact Hxs | constructor]] end.
+    induction items as [|it items IH]; intros ys acc Hys Hacc.
+    + destruct ys; [apply rP_ok, Hacc | apply rP_err].
+    + destruct it as [q fb|o].
+      * destruct ys as [|y ys].
+        -- destruct fb as [dflt|]; [|apply rP_err].
+           eapply rP_bind; [apply Hev, Hrho|]. intros w Hw.
+           eapply rP_bind; [apply bind_item_wf; assumption|]. intros acc' Hacc'. apply IH; [constructor | exact Hacc'].
+        -- inversion Hys; subst.
+           eapply rP_bind; [apply bind_item_wf; [exact Hrho | exact Hacc | apply VWF_D; assumption]|].
+           intros acc' Hacc'. apply IH; assumption.
+      * match goal with |- rP _ (if ?c then _ else _) => destruct c end; [apply rP_err|].
+        eapply rP_bind with (Q := EWF).
+        -- destruct o as [x|]; [|apply rP_ok, Hacc].
+           apply bind_item_wf; [exact Hrho | exact Hacc |]. apply VWF_D, items_set_canon, Forall_firstn, Hys.
+        -- intros acc' Hacc'. apply IH; [apply Forall_skipn, Hys | exact Hacc'].
+  - (* tuple pattern *)
+    eapply rP_bind; [apply as_data_wf, Hv|]. intros d Hd.
+    destruct d as [|tv|]; try apply rP_err.
+    match goal with |- rP _ (if ?c then _ else _) => destruct c end; [apply rP_err|].
+    match goal with |- rP _ (?F ?a ?b ?c ?d) =>
+      assert (HH : forall b' c' d', Canon (VTup b') -> EWF d' -> rP EWF (F a b' c' d')); [| apply HH; [exact Hd | constructor]] end.
+    induction attrs as [|[n it] attrs IH]; intros remaining extra acc Hrem Hacc.
+    + destruct extra as [[x|]|].
+      * apply bind_item_wf; [exact Hrho | exact Hacc | apply VWF_D, Hrem].
+      * apply rP_ok, Hacc.
+      * destruct remaining; [apply rP_ok, Hacc | apply rP_err].
+    + destruct it as [q fb|o]; [|apply IH; assumption].
+      destruct (tget n tv) as [x|] eqn:Eg.
+      * eapply rP_bind; [apply bind_item_wf; [exact Hrho | exact Hacc | apply VWF_D; eapply tget_canon; [exact Hd | exact Eg]]|].
+        intros acc' Hacc'. apply IH; [apply filter_tup_canon, Hrem | exact Hacc'].
+      * destruct fb as [dflt|]; [|apply rP_err].
+        eapply rP_bind; [apply Hev, Hrho|]. intros w Hw.
+        eapply rP_bind; [apply bind_item_wf; assumption|]. intros acc' Hacc'. apply IH; assumption.
+  - (* dict pattern *)
+    eapply rP_bind; [apply as_data_wf, Hv|]. intros d Hd.
+    destruct d as [| |l]; try apply rP_err.
+    destruct (dict_entries l) as [es|] eqn:Ee; [|apply rP_err].
+    pose proof (dict_entries_canon l es Ee (set_members_canon _ Hd)) as Hes.
+    match goal with |- rP _ (if ?c then _ else _) => destruct c end; [apply rP_err|].
+    match goal with |- rP _ (?F ?a ?b ?c ?d) =>
+      assert (HH : forall b' c' d', Forall (fun p : val * val => Canon (fst p) /\ Canon (snd p)) b' -> EWF d' -> rP EWF (F a b' c' d'));
+        [| apply HH; [exact Hes | constructor]] end.
+    induction entries as [|[ke it] entries IH]; intros remaining extra acc Hrem Hacc.
+    + destruct extra as [[x|]|].
+      * apply bind_item_wf; [exact Hrho | exact Hacc |]. apply VWF_D, mkset_canon, Forall_forall.
+        intros m Hm. apply in_map_iff in Hm as (q & <- & Hq). rewrite Forall_forall in Hrem. destruct (Hrem q Hq). apply ventry_canon; assumption.
+      * apply rP_ok, Hacc.
+      * destruct remaining; [apply rP_ok, Hacc | apply rP_err].
+    + destruct it as [q fb|o]; [|apply IH; assumption].
+      eapply rP_bind; [apply Hev, Hrho|]. intros kw Hkw. eapply rP_bind; [apply as_data_wf, Hkw|]. intros k Hk.
+      destruct (filter (fun p : val * val => veqb k (fst p)) remaining) as [|[k1 x] [|? ?]] eqn:Ef.
+      * destruct fb as [dflt|]; [|apply rP_err].
+        eapply rP_bind; [apply Hev, Hrho|]. intros w Hw.
+        eapply rP_bind; [apply bind_item_wf; assumption|]. intros acc' Hacc'. apply IH; assumption.
+      * assert (Hx : Canon x).
+        { assert (Hin : In (k1, x) (filter (fun p : val * val => veqb k (fst p)) remaining)) by (rewrite Ef; left; reflexivity).
+          apply filter_In in Hin as [Hin _]. rewrite Forall_forall in Hrem. apply (Hrem _ Hin). }
+        eapply rP_bind; [apply bind_item_wf; [exact Hrho | exact Hacc | apply VWF_D, Hx]|].
+        intros acc' Hacc'. apply IH; [apply Forall_filter, Hrem | exact Hacc'].
+      * apply rP_unspec.
+  - (* set pattern *)
+    eapply rP_bind; [apply as_data_wf, Hv|]. intros d Hd.
+    destruct d as [| |l]; try apply rP_err.
+    match goal with |- rP _ (?F ?a ?b ?c) =>
+      assert (HH : forall b' c', Canon (VSet b') -> rP EWF (F a b' c')); [| apply HH; exact Hd] end.
+    induction items as [|it items IH]; intros remaining binder Hrem.
+    + destruct binder as [[q fb|[x|]]|].
+      * destruct remaining as [|x [|? ?]]; try apply rP_err.
+        apply Hbd; [exact Hrho | apply VWF_D; eapply Canon_members; [exact Hrem | left; reflexivity]].
+      * apply rP_ok. constructor; [apply VWF_D, Hrem | constructor].
+      * apply rP_ok. constructor.
+      * destruct remaining; [apply rP_ok; constructor | apply rP_err].
+    + destruct it as [q fb|o].
+      * destruct q; try (destruct binder; [apply rP_err | apply IH, Hrem]).
+        eapply rP_bind; [apply Hev, Hrho|]. intros w Hw. eapply rP_bind; [apply as_data_wf, Hw|]. intros a Ha.
+        destruct (vmem a remaining); [apply IH, filter_canon, Hrem | apply rP_err].
+      * destruct binder; [apply rP_err | apply IH, Hrem].
+Qed.
+End Step.
+Transparent rP.
+
+(* ---------- every answer of the evaluator is canonical ---------- *)
+
+Theorem eval_wf n :
+  (forall rho e, EWF rho -> rP VWF (eval n rho e)) /\
+  (forall rho p v, EWF rho -> VWF v -> rP EWF (bind_pat n rho p v)).
+Proof.
+  induction n as [|n [IHe IHb]]; [split; intros; apply rP_oof|].
+  split.
+  - intros rho e Hrho. change (rP VWF (evalF (eval n) (bind_pat n) rho e)). apply evalF_wf; assumption.
+  - intros rho p v Hrho Hv. change (rP EWF (bindF (eval n) (bind_pat n) rho p v)). apply bindF_wf; assumption.
+Qed.
+
+Theorem eval_canonical n rho e v : EWF rho -> eval n rho e = Ok (D v) -> Canon v.
+Proof.
+  intros Hrho E. destruct (eval_wf n) as [H _]. specialize (H rho e Hrho (D v) E). inversion H; assumption.
+Qed.
+
+Theorem run_data_canonical n e v : run_data n e = Ok v -> Canon v.
+Proof.
+  unfold run_data, run. destruct (eval n [] e) as [w| | |] eqn:E; simpl; try discriminate.
+  destruct w as [d|]; simpl; [|discriminate]. intros [= <-].
+  eapply eval_canonical; [|exact E]. constructor.
+Qed.
+
+(* so two results with the same members are the same value, however each was computed *)
+Theorem results_extensional n m e1 e2 a b :
+  run_data n e1 = Ok (VSet a) -> run_data m e2 = Ok (VSet b) ->
+  (forall x, In x a <-> In x b) -> VSet a = VSet b /\ veqb (VSet a) (VSet b) = true.
+Proof.
+  intros H1 H2 Hin. apply run_data_canonical, Canon_set in H1 as [Sa _]. apply run_data_canonical, Canon_set in H2 as [Sb _].
+  assert (E : a = b) by (apply ssorted_ext; assumption). subst. split; [reflexivity | apply veqb_eq; reflexivity].
+Qed.
